@@ -476,6 +476,9 @@ Definition execute_operation (h0 : hs) (x : op_result) : res unit :=
       (* Operation.Equal: id, type and payload must come back unchanged *)
       if negb (op_same_type stored (ox_op x) && N.eqb (ox_stored_bytes x) (ox_bytes x))
       then RErr h0 else
+      (* only a reinit operation is answered by "processed" (nothing to post) *)
+      if String.eqb (ox_event x) ev_processed && negb (String.eqb (op_type stored) ev_reinit)
+      then RErr h0 else
       let body : res unit :=
         if negb (String.eqb (ox_event x) ev_processed) then
           ROk (fold_left (fun h rm => emit h (WSend {| o_round := rm_round rm; o_event := rm_event rm;
